@@ -194,3 +194,155 @@ M('c10-shared-cache', [('src/state.rs', '''    next_ordered_call_index: AtomicUs
             panic_reasons''')], {'C10': r'R10\.3'})
 M('c10-position-plus-one', [('src/call_pattern.rs', 'find_responder_by_call_index(&self.responders, self.call_counter.fetch_add())', 'find_responder_by_call_index(&self.responders, self.call_counter.fetch_add() + 1)')], {'C10': r'R10\.2'})
 M('h-c10-rename-bump', [('src/state.rs', 'pub fn bump_ordered_call_index(&self)', 'pub fn take_next_slot(&self)'), ('src/eval.rs', 'self.shared_state.bump_ordered_call_index()', 'self.shared_state.take_next_slot()')], silent=['C10'])
+
+# ---- C01 -------------------------------------------------------------------------------------
+EV = 'src/eval.rs'
+ASM = 'src/assemble.rs'
+BLD = 'src/build.rs'
+CP = 'src/call_pattern.rs'
+FM = 'src/fn_mocker.rs'
+_SCAN_TAIL = '''                )
+                .next()
+                .transpose()'''
+M('c01-last', [(EV, _SCAN_TAIL, _SCAN_TAIL.replace('.next()', '.last()'))], {'C01': r'R01\.1'})
+M('c01-rev', [(EV, '''                .call_patterns
+                .iter()
+                .enumerate()
+                .filter_map(''', '''                .call_patterns
+                .iter()
+                .enumerate()
+                .rev()
+                .filter_map(''')], {'C01': r'R01\.1'})
+M('c01-skip-exhausted', [(EV, '''                    |(pat_index, call_pattern)| match match_inputs(call_pattern, None) {
+                        Ok(false) => None,''', '''                    |(pat_index, call_pattern)| match match_inputs(call_pattern, None) {
+                        Ok(true) if call_pattern.call_counter.fetch_add() > 1000 => None,
+                        Ok(false) => None,''')], {'C01': r'R01\.[23]'})
+M('c01-count-in-diagnostics', [(EV, '''                        let _ = match_inputs(call_pattern, Some(&mut mismatch_reporter));''', '''                        let _ = match_inputs(call_pattern, Some(&mut mismatch_reporter));
+                        let _ = call_pattern.next_responder();''')], {'C01': r'R01\.3', 'C07': r'R07\.1'})
+M('c01-insert-front', [(ASM, 'entry.get_mut().call_patterns.push(call_pattern);', 'entry.get_mut().call_patterns.insert(0, call_pattern);')], {'C01': r'R01\.4'})
+M('c01-each-rev', [(BLD, 'for builder in self.patterns.into_iter() {', 'for builder in self.patterns.into_iter().rev() {')], {'C01': r'R01\.4'})
+M('c01-tuple-swap', [('src/clause.rs', 'tuple_nonterminal_impl! { [T1, T2, T3, T4, T5, T6, T7], [0, 1, 2, 3, 4, 5, 6] }', 'tuple_nonterminal_impl! { [T1, T2, T3, T4, T5, T6, T7], [0, 1, 2, 4, 3, 5, 6] }')], {'C01': r'R01\.4\.tuple', 'C14': r'R14\.1'})
+M('c01-any-fn-mocker', [(EV, '''        let fn_mocker = match self.shared_state.fn_mockers.get(&self.info.type_id) {
+            None => {''', '''        let fn_mocker = match self.shared_state.fn_mockers.get(&self.info.type_id).or_else(|| self.shared_state.fn_mockers.values().find(|m| m.info.path.method_ident() == self.info.path.method_ident())) {
+            None => {''')], {'C01': r'R01\.5'})
+
+# ---- C02 -------------------------------------------------------------------------------------
+M('c02-index-plus-one', [(BLD, 'builder.current_response_index += times;', 'builder.current_response_index += times + 1;')], {'C02': r'R02\.1'})
+M('c02-quantify-before-push', [(BLD, '''        self.wrapper.push_returner_result(
+            self.return_value
+                .take()
+                .unwrap()
+                .into_return_once()
+                .map(|r| r.into_returner()),
+        );
+        self.wrapper.quantify(1, counter::Exactness::Exact);''', '''        self.wrapper.quantify(1, counter::Exactness::Exact);
+        self.wrapper.push_returner_result(
+            self.return_value
+                .take()
+                .unwrap()
+                .into_return_once()
+                .map(|r| r.into_returner()),
+        );''')], {'C02': r'R02\.2'})
+M('c02-err-arm-no-minus', [(CP, 'Err(insert_index) => &responders[insert_index - 1].responder,', 'Err(insert_index) => &responders[insert_index.saturating_sub(0).min(responders.len() - 1)].responder,')], {'C02': r'R02\.4'})
+M('c02-cmp-plus-one', [(CP, 'responders.binary_search_by(|responder| responder.response_index.cmp(&call_index));', 'responders.binary_search_by(|responder| responder.response_index.cmp(&(call_index + 1)));')], {'C02': r'R02\.4'})
+M('c02-cmp-reversed', [(CP, 'responders.binary_search_by(|responder| responder.response_index.cmp(&call_index));', 'responders.binary_search_by(|responder| call_index.cmp(&responder.response_index));')], {'C02': r'R02\.4'})
+M('c02-n-times-exactness', [(BLD, '''        self.wrapper.quantify(times, counter::Exactness::Exact);
+        self.into_exact()''', '''        self.wrapper.quantify(times, counter::Exactness::AtLeast);
+        self.into_exact()''')], {'C02': r'R02\.2', 'C03': r'R03\.4'})
+M('c02-exhausted-panic-to-continue', [(EV, '''                    None => Err(MockError::CannotReturnValueMoreThanOnce {
+                        fn_call: dyn_ctx.fn_call(),
+                        pattern: eval_responder
+                            .fn_mocker
+                            .debug_pattern(eval_responder.pat_index),
+                    }),''', '''                    None => Ok(Eval::Continue(Continuation::Unmock, inputs)),''')], {'C02': r'R02\.5', 'C07': r'R07\.4'})
+M('h-c02-partition-point', [(CP, '''    let index_result =
+        responders.binary_search_by(|responder| responder.response_index.cmp(&call_index));
+
+    Some(match index_result {
+        Ok(index) => &responders[index].responder,
+        Err(insert_index) => &responders[insert_index - 1].responder,
+    })''', '''    let index = responders.partition_point(|responder| responder.response_index <= call_index);
+
+    Some(&responders[index - 1].responder)''')], silent=['C02'])
+
+# ---- C03 -------------------------------------------------------------------------------------
+M('c03-ne-to-lt', [(CNT, 'if actual_calls.0 != lower_bound.0 {', 'if actual_calls.0 < lower_bound.0 {')], {'C03': r'R03\.1'})
+M('c03-lt-to-le', [(CNT, 'if actual_calls.0 < lower_bound.0 {', 'if actual_calls.0 <= lower_bound.0 {')], {'C03': r'R03\.1'})
+M('c03-plus-one-dropped', [(CNT, 'Exactness::AtLeastPlusOne => NCalls(self.minimum + 1),', 'Exactness::AtLeastPlusOne => NCalls(self.minimum),')], {'C03': r'R03\.1'})
+M('c03-never-called-dropped', [(FM, '''        if total_calls == 0 {
+            errors.push(error::MockError::MockNeverCalled { info: self.info });
+        }''', '''        if total_calls == usize::MAX {
+            errors.push(error::MockError::MockNeverCalled { info: self.info });
+        }''')], {'C03': r'R03\.2'})
+M('c03-break-after-first-error', [(TD, '''        fn_mocker.verify(&mut mock_errors);
+    }''', '''        fn_mocker.verify(&mut mock_errors);
+        if !mock_errors.is_empty() {
+            break;
+        }
+    }''')], {'C03': r'R03\.3', 'C09': r'R09\.teardown'})
+M('c03-truncate-errors', [(TD, '''        let error_strings = errors
+            .iter()''', '''        let mut errors = errors;
+        errors.truncate(1);
+        let error_strings = errors
+            .iter()''')], {'C03': r'R03\.3'})
+M('c03-only-unordered-verified', [(TD, '        fn_mocker.verify(&mut mock_errors);', '        if fn_mocker.pattern_match_mode == crate::fn_mocker::PatternMatchMode::InAnyOrder { fn_mocker.verify(&mut mock_errors); }')], {'C03': r'R03\.3'})
+M('h-c03-swap-operands', [(CNT, 'if actual_calls.0 != lower_bound.0 {', 'if !(lower_bound.0 == actual_calls.0) {'), (CNT, 'if actual_calls.0 < lower_bound.0 {', 'if lower_bound.0 > actual_calls.0 {')], silent=['C03'])
+
+# ---- C04 -------------------------------------------------------------------------------------
+M('c04-end-plus-one', [(ASM, 'ordered_call_index_range.end = self.current_call_index + exact_calls.0;', 'ordered_call_index_range.end = self.current_call_index + exact_calls.0 + 1;')], {'C04': r'R04\.1'})
+M('c04-cursor-not-advanced', [(ASM, '            self.current_call_index = ordered_call_index_range.end;\n', '')], {'C04': r'R04\.1'})
+M('c04-bump-both-modes', [(EV, '''        match fn_mocker.pattern_match_mode {
+            PatternMatchMode::InAnyOrder => fn_mocker''', '''        let ordered_call_index = self.shared_state.bump_ordered_call_index();
+        match fn_mocker.pattern_match_mode {
+            PatternMatchMode::InAnyOrder => fn_mocker'''), (EV, '''            PatternMatchMode::InOrder => {
+                let ordered_call_index = self.shared_state.bump_ordered_call_index();
+''', '''            PatternMatchMode::InOrder => {
+''')], {'C04': r'R04\.2'})
+M('c04-start-strict', [(FM, 'pattern.ordered_call_index_range.start <= ordered_call_index', 'pattern.ordered_call_index_range.start < ordered_call_index')], {'C04': r'R04\.4'})
+M('c04-end-inclusive', [(FM, '&& pattern.ordered_call_index_range.end > ordered_call_index', '&& pattern.ordered_call_index_range.end >= ordered_call_index')], {'C04': r'R04\.4'})
+M('c04-skip-matcher', [(EV, '''                if !match_inputs(pattern, Some(&mut mismatch_reporter))
+                    .map_err(|err| self.map_pattern_error(err, fn_mocker, pat_index))?
+                {''', '''                if false && !match_inputs(pattern, Some(&mut mismatch_reporter))
+                    .map_err(|err| self.map_pattern_error(err, fn_mocker, pat_index))?
+                {''')], {'C04': r'R04\.5'})
+M('c04-mismatch-falls-through', [(EV, '''                    return Err(MockError::InputsNotMatchedInCallOrder {
+                        fn_call: self.fn_call(),
+                        actual_call_order: error::CallOrder(ordered_call_index),
+                        pattern: fn_mocker.debug_pattern(pat_index),
+                        mismatches: builder.build(),
+                    });''', '''                    let _ = builder.build();
+                    return Ok(None);''')], {'C04': r'R04\.5'})
+M('c04-implicit-once-dropped', [(BLD, '''        if self.wrapper.inner().pattern_match_mode == PatternMatchMode::InOrder {
+            self.wrapper.quantify(1, counter::Exactness::Exact);
+        }
+
+        sink.push(F::info(), self.wrapper.into_owned())''', '''        if self.wrapper.inner().pattern_match_mode == PatternMatchMode::InOrder {
+            self.wrapper.quantify(0, counter::Exactness::Exact);
+        }
+
+        sink.push(F::info(), self.wrapper.into_owned())''')], {'C04': r'R04\.6'})
+M('h-c04-swap-predicate', [(FM, '''                pattern.ordered_call_index_range.start <= ordered_call_index
+                    && pattern.ordered_call_index_range.end > ordered_call_index''', '''                ordered_call_index < pattern.ordered_call_index_range.end
+                    && ordered_call_index >= pattern.ordered_call_index_range.start''')], silent=['C04'])
+
+# ---- C07 -------------------------------------------------------------------------------------
+M('c07-precedence-swapped', [(EV, '''                return if self.info.has_default_impl {
+                    Ok(EvalResult::CallDefaultImpl)
+                } else if self.info.partial_by_default {
+                    Ok(EvalResult::Unmock)
+                } else {''', '''                return if self.info.partial_by_default {
+                    Ok(EvalResult::Unmock)
+                } else if self.info.has_default_impl {
+                    Ok(EvalResult::CallDefaultImpl)
+                } else {''')], {'C07': r'R07\.1'})
+M('c07-strict-partial-swapped', [(EV, '''                FallbackMode::Unmock => Ok(EvalResult::Unmock),
+            },
+        }
+    }''', '''                FallbackMode::Unmock => Err(MockError::NoMockImplementation { fn_call: self.fn_call() }),
+            },
+        }
+    }''')], {'C07': r'R07\.1'})
+M('c07-new-is-partial', [(LIB, '''            assemble::MockAssembler::try_from_clause(setup),
+            FallbackMode::Error,''', '''            assemble::MockAssembler::try_from_clause(setup),
+            FallbackMode::Unmock,''')], {'C07': r'R07\.2'})
+M('c07-report-wrong-error', [('src/private.rs', 'Self::Unmock => error::MockError::CannotUnmock { info: F::info() },', 'Self::Unmock => error::MockError::NoDefaultImpl { info: F::info() },')], {'C07': r'R07\.3'})
